@@ -18,10 +18,12 @@ pub fn no_child(_: &[String]) -> i32 {
     2
 }
 
+pub mod index;
 pub mod okey;
 
 pub fn all() -> Vec<StreamDef> {
     vec![
+        index::def(),
         okey::def(),
     ]
 }
